@@ -1,5 +1,5 @@
 (* drv_c04.ml — runs the extracted evaluator of the index-symmetric term language on one measure.
-   line:  m <id> <k> <A : mat q> <ci : list q> <ks : list q>   |   g <idx> <A> <ci> <ks>   |   gcount   |   gfp   |   gsame <idx> <id> <k>
+   line:  m <id> <k> <A : mat q> <ci : list q> <ks : list q>   |   g <idx> <A> <ci> <ks>   |   gcount   |   gfp   |   gsame <idx> <id> <k>   |   mkind <id> <k>   |   gkind <idx>
    The abstract primitives (0: sqrt, 1: cbrt) are interpreted through binary64 and converted back to a dyadic
    rational; only measures compared with tolerance use them. *)
 let rec pos_to_float p = match p with XH -> 1.0 | XO q -> 2.0 *. pos_to_float q | XI q -> 2.0 *. pos_to_float q +. 1.0
@@ -34,5 +34,9 @@ let dispatch = function
   | "gsame" ->  (* gsame <idx> <id> <k> : is the idx-th generated program syntactically the hand-written term (id, k)? *)
     let idx = next_nat () in let id = next_nat () in let k = next_nat () in
     p_bool (gen_same_as_hand idx id k)
+  | "mkind" ->  (* mkind <id> <k> : [kind of measure_by_id id k; kind the table kind_by_id pins for id]  (0 scalar, 1 vector, 2 matrix) *)
+    let id = next_nat () in let k = next_nat () in
+    p_list p_nat [measure_kind id k; kind_by_id id]
+  | "gkind" -> let idx = next_nat () in p_nat (gen_kind idx)
   | f -> failwith ("unknown function " ^ f)
 let () = main dispatch
